@@ -349,7 +349,13 @@ func cvaOf(c *LibCtx, v *Val) (cvaView, bool) {
 	return cvaView{ov: getField(bva, "OriginalVesting").T, dv: getField(bva, "DelegatedVesting").T, start: getField(v, "StartTime").T, end: getField(bva, "EndTime").T}, true
 }
 
+// vestedAmount: the amount vested at tUnix, as an application of the function cvaVested; its definition (vestedAmountDef) is
+// supplied per obligation: as an equation for every ground application and as a quantified axiom for the others.
 func vestedAmount(ov, start, end, tUnix *Term) *Term {
+	return UF("cvaVested", []string{SInt, SInt, SInt, SInt}, SInt, ov, start, end, tUnix)
+}
+
+func vestedAmountDef(ov, start, end, tUnix *Term) *Term {
 	x := Sub(tUnix, start)
 	y := Sub(end, start)
 	s := ChopRound(TQuo(Mul(Mul(Mul(x, P18), P18), P18), Mul(y, P18)))
